@@ -146,6 +146,19 @@ def search_register():
                 if not ok:
                     wit.append(dict(function='EventManager.register', input=dict(event=event, langs=repr(langs), preexisting=pre),
                                     observed=repr(after.get(event)), clauses=['appends-to-exactly-that-event']))
+    # the same handler registered again (another one in between) is a NEW entry at the end, not a change of the earlier entry
+    for first_langs, second_langs in ((['python'], ['java']), (['python'], ['python']), ('python', ['go', 'java'])):
+        n += 1
+        m = fresh_manager()
+        h1, h2 = object(), object()
+        m.register(EV, h1, first_langs)
+        m.register(EV, h2, ['java'])
+        m.register(EV, h1, second_langs)
+        got = [(list(e[0]), e[1]) for e in m.event_handlers.get(EV, [])]
+        lst = lambda x: [x] if isinstance(x, str) else list(x)
+        if got != [(lst(first_langs), h1), (['java'], h2), (lst(second_langs), h1)]:
+            wit.append(dict(function='EventManager.register', input=dict(history=f'register(h1, {first_langs!r}); register(h2, ["java"]); register(h1, {second_langs!r})'),
+                            observed=repr([(l_, 'h1' if h_ is h1 else 'h2') for l_, h_ in got]), clauses=['appends-to-exactly-that-event']))
     # register_list: order preserved
     m = fresh_manager()
     hs = [object() for _ in range(4)]
